@@ -77,6 +77,15 @@ def balance_part(verdict, cov, mc, seed, tier, tag):
             for srv in (('a', 'b') if k % 2 else ('b', 'a')):
                 steps += [{'op': 'up' if srv not in up0 else 'down', 'srv': srv}, {'op': 'call'}, {'op': 'call'}]
             stims.append({'class': 'balance_list', 'servers': ['a', 'b'], 'up0': up0, 'list': ['a', 'b'] if k % 3 else ['a'], 'script': steps})
+        # plain channels to a unix-socket endpoint (Endpoint "unix://..", connect_lazy): the server goes away and comes back several times
+        for k in range(4 if tier != 'thorough' else 16):
+            up0 = [['a'], []][k % 2]
+            steps = [{'op': 'call'}, {'op': 'call'}]
+            cur = 'a' in up0
+            for _ in range(3):
+                steps += [{'op': 'down' if cur else 'up', 'srv': 'a'}, {'op': 'call'}, {'op': 'call'}]
+                cur = not cur
+            stims.append({'class': 'uds_channel', 'servers': ['a'], 'up0': up0, 'uds': True, 'single': True, 'run_tag': k, 'script': steps})
         ev, path = simple.run_lab('balance', stims, tag + '_balance', 'balance', timeout=2400, env={'VH_HANG_SECS': '90'})
         # the clauses of C14 that read the same for any channel (completes, definite result, recovers) are violations when they fail
         # (this lab runs in real time over real sockets: a violation is reported only if it shows again when the run is repeated on its own)
